@@ -42,6 +42,18 @@ def _desired_tree(splice_map):
             yield rp, data
 
 
+def _read_with_includes(path):
+    """harness text; a line `//@include <relative path>` is replaced by that file's text."""
+    out = []
+    for line in open(path).read().splitlines(keepends=True):
+        m = re.match(r'\s*//@include\s+(\S+)', line)
+        if m:
+            out.append(_read_with_includes(os.path.join(os.path.dirname(path), m.group(1))))
+        else:
+            out.append(line)
+    return ''.join(out)
+
+
 def _apply_splice(unit, sp):
     def f(text):
         # 1. contract attributes in front of anchored fns (inserted bottom-up so offsets stay valid)
@@ -59,7 +71,7 @@ def _apply_splice(unit, sp):
         if sp.get('prepend'):
             text = open(os.path.join(unit['dir'], sp['prepend'])).read() + text
         if sp.get('append'):
-            text = text.rstrip('\n') + '\n\n' + open(os.path.join(unit['dir'], sp['append'])).read()
+            text = text.rstrip('\n') + '\n\n' + _read_with_includes(os.path.join(unit['dir'], sp['append']))
         return text
     return f
 
@@ -252,7 +264,7 @@ def harness_text_ids(unit):
     for sp in unit.get('splices', []):
         if not sp.get('append'):
             continue
-        text = open(os.path.join(unit['dir'], sp['append'])).read()
+        text = _read_with_includes(os.path.join(unit['dir'], sp['append']))
         s = Src(sp['append'], text)
         for mm in re.finditer(r'\bfn\s+(\w+)\s*\(', s.m):
             name = mm.group(1)
